@@ -41,6 +41,7 @@ MASK = jnp.array([True, False, True])
 M2 = jnp.array([True, False])
 SPD = jnp.array([[2., 1, 0], [1, 2, 0], [0, 0, 1]])
 SPD2 = jnp.array([[1., 0, 0], [0, 2, 1], [0, 1, 1]])
+NSYM = jnp.array([[2., 1, 0], [0, 1, 1], [0, 0, 1]])   # invertible, not symmetric
 
 def iqu_():
     return StokesIQUPyTree.structure_for((2,), _DEFAULT['dtype'])
@@ -80,6 +81,7 @@ FAM = {
         'Rs0': ((), lambda: ReshapeOperator((3,), in_structure=S(3)), ''),
         'Spd': ((), lambda: dense(spd_(SPD), S(3)), ''),
         'Spd2': ((), lambda: dense(spd_(SPD2), S(3)), ''),
+        'Nsym': ((), lambda: dense(spd_(NSYM), S(3)), ''),
         'Tz': (((2,),), lambda h: SymmetricBandToeplitzOperator(h, S(3), method='direct'), ''),
         'Bd': (((2, 3),), lambda d: BroadcastDiagonalOperator(d, axis_destination=-1, in_structure=S(3)), ''),
     },
